@@ -15,6 +15,8 @@ import (
 	"golang.org/x/tools/go/packages"
 	"golang.org/x/tools/go/ssa"
 	"golang.org/x/tools/go/ssa/ssautil"
+
+	"verif/lint/internal/paths"
 )
 
 // Module is the import path prefix of the analysed module.
@@ -30,22 +32,23 @@ var LibraryPackages = []string{
 
 // Program is the loaded, type-checked program.
 type Program struct {
-	Mod   string
+	Mod    string
 	UseCHA bool
-	Dir   string
-	Fset  *token.FileSet
-	Pkgs  []*packages.Package // module packages only (non-test variants)
-	All   []*packages.Package
-	Prog  *ssa.Program
-	SSA   map[string]*ssa.Package // by import path
-	Funcs map[*ssa.Function]bool  // all functions (incl. instantiations, closures)
+	Dir    string
+	Fset   *token.FileSet
+	Pkgs   []*packages.Package // module packages only (non-test variants)
+	All    []*packages.Package
+	Prog   *ssa.Program
+	SSA    map[string]*ssa.Package // by import path
+	Funcs  map[*ssa.Function]bool  // all functions (incl. instantiations, closures)
 
-	cg      *callgraph.Graph
-	inMod   map[*ssa.Function]bool
-	edges   map[*ssa.Function][]*ssa.Function // in-module call edges (resolved) + parent→closure
-	callers map[*ssa.Function][]*callgraph.Edge
-	byName  map[string]*ssa.Function
+	cg          *callgraph.Graph
+	inMod       map[*ssa.Function]bool
+	edges       map[*ssa.Function][]*ssa.Function // in-module call edges (resolved) + parent→closure
+	callers     map[*ssa.Function][]*callgraph.Edge
+	byName      map[string]*ssa.Function
 	siteCallees map[ssa.CallInstruction][]*ssa.Function
+	renamed     map[string]string
 }
 
 // Options configures loading.
@@ -53,8 +56,8 @@ type Options struct {
 	// Module overrides the module path prefix (default: the go-ucan module); when set, the
 	// library package presence check is skipped (used for canary packages).
 	Module string
-	Dir   string
-	Tags  string
+	Dir    string
+	Tags   string
 	GOARCH string
 	// CHA selects the class-hierarchy call graph (a superset of VTA) for reachability.
 	CHA bool
@@ -133,8 +136,13 @@ func Load(opt Options) (*Program, error) {
 	for f := range p.Funcs {
 		if p.isInModule(f) {
 			p.inMod[f] = true
-			p.byName[ShortName(f)] = f
 		}
+	}
+	if opt.Module == "" {
+		p.resolveRenames()
+	}
+	for f := range p.inMod {
+		p.byName[ShortName(f)] = f
 	}
 	return p, nil
 }
@@ -160,10 +168,7 @@ func (p *Program) InModule(f *ssa.Function) bool { return p.inMod[f] }
 // ShortName is the canonical short name of a function: module prefix stripped.
 // e.g. "(*token/invocation.Token).verifyProofs", "pkg/policy.matchStatement", "token/invocation.New$1".
 func ShortName(f *ssa.Function) string {
-	s := f.String()
-	s = strings.ReplaceAll(s, Module+"/", "")
-	s = strings.ReplaceAll(s, Module, "")
-	return s
+	return paths.FuncName(f)
 }
 
 // Func finds an in-module function by short name; nil if absent.
@@ -404,4 +409,82 @@ func (p *Program) CalleesAt(site ssa.CallInstruction) []*ssa.Function {
 		}
 	}
 	return p.siteCallees[site]
+}
+
+// Renamed lists the anchors that were resolved by signature (canonical name -> current name).
+func (p *Program) Renamed() map[string]string { return p.renamed }
+
+// sigKey renders package, receiver and signature of a function (names of parameters excluded).
+func sigKey(f *ssa.Function) string {
+	recv := ""
+	if r := f.Signature.Recv(); r != nil {
+		recv = r.Type().String()
+	}
+	return recv + "|" + types.TypeString(types.NewSignatureType(nil, nil, nil, f.Signature.Params(), f.Signature.Results(), f.Signature.Variadic()), nil)
+}
+
+// resolveRenames binds frozen anchor names that no longer exist to the unique function of the same
+// package / receiver / signature whose own name is not a frozen name (a renamed unexported function).
+func (p *Program) resolveRenames() {
+	p.renamed = map[string]string{}
+	have := map[string]*ssa.Function{}
+	byPkgSig := map[string][]*ssa.Function{}
+	for f := range p.inMod {
+		if f.Parent() != nil || f.Synthetic != "" || f.Origin() != nil {
+			continue
+		}
+		name := strings.ReplaceAll(strings.ReplaceAll(f.String(), Module+"/", ""), Module, "")
+		have[name] = f
+		byPkgSig[p.PkgPathOf(f)+"#"+sigKey(f)] = append(byPkgSig[p.PkgPathOf(f)+"#"+sigKey(f)], f)
+	}
+	for name, a := range FrozenAnchors {
+		if _, ok := have[name]; ok {
+			continue
+		}
+		var cands []*ssa.Function
+		for _, f := range byPkgSig[Module+"/"+a.Pkg+"#"+a.Sig] {
+			cur := strings.ReplaceAll(strings.ReplaceAll(f.String(), Module+"/", ""), Module, "")
+			if _, frozen := FrozenAnchors[cur]; frozen {
+				continue
+			}
+			if f.Object() != nil && f.Object().Exported() {
+				continue
+			}
+			cands = append(cands, f)
+		}
+		if len(cands) == 1 {
+			paths.Alias[cands[0]] = name
+			p.renamed[name] = cands[0].String()
+		}
+	}
+}
+
+// GenAnchors renders the frozen anchor table for the current tree.
+func GenAnchors(p *Program) string {
+	var names []string
+	ents := map[string]Anchor{}
+	for f := range p.inMod {
+		if f.Parent() != nil || f.Synthetic != "" || f.Origin() != nil || !p.IsLibrary(f) {
+			continue
+		}
+		if f.Object() == nil || f.Object().Exported() {
+			continue
+		}
+		name := strings.ReplaceAll(strings.ReplaceAll(f.String(), Module+"/", ""), Module, "")
+		if strings.HasSuffix(name, ".init") {
+			continue
+		}
+		ents[name] = Anchor{Pkg: strings.TrimPrefix(p.PkgPathOf(f), Module+"/"), Sig: sigKey(f)}
+		names = append(names, name)
+	}
+	sort.Strings(names)
+	var sb strings.Builder
+	sb.WriteString("package load\n\n// Code generated by `ucandump -anchors`; DO NOT EDIT by hand.\n\n")
+	sb.WriteString("// Anchor is the frozen identity of an unexported function: package (relative to the module) and\n// receiver|signature rendering.\ntype Anchor struct{ Pkg, Sig string }\n\n")
+	sb.WriteString("// FrozenAnchors lists the unexported library functions of the tree the rules were confirmed on. When one of\n// these names is missing, the loader binds it to the unique function with the same package, receiver and\n// signature that carries an unknown name (a renamed function), so that renames do not unresolve anchors.\nvar FrozenAnchors = map[string]Anchor{\n")
+	for _, n := range names {
+		fmt.Fprintf(&sb, "\t%q: {%q, %q},\n", n, ents[n].Pkg, ents[n].Sig)
+	}
+	sb.WriteString("}\n")
+	return sb.String()
 }
